@@ -24,7 +24,7 @@ FILES = {
                                               'Rgba::set_alpha', '<Rgba as PartialEq>::eq', '<Rgba as Ord>::cmp',
                                               'Rgba::to_bytes', 'Rgba::try_bytes', 'Rgba::invert']),
     'hsla.rs': dict(module='value::colors::hsla::kani_verif', src='rsass/src/value/colors/hsla.rs',
-                    unit='U-hsla', functions=['deg_mod', 'Hsla::new', 'Hsla::set_alpha', 'Hsla::invert']),
+                    unit='U-hsla', functions=['Hsla::new', 'Hsla::set_alpha', 'Hsla::invert']),  # deg_mod: assumed contract only
     'hwba.rs': dict(module='value::colors::hwba::kani_verif', src='rsass/src/value/colors/hwba.rs',
                     unit='U-hwba', functions=['Hwba::new', 'Hwba::set_alpha']),
     'convert.rs': dict(module='value::colors::convert::kani_verif', src='rsass/src/value/colors/convert.rs',
@@ -55,7 +55,7 @@ FILES = {
     'opt.rs': dict(module='css::selectors::opt::kani_verif', src='rsass/src/css/selectors/opt.rs',
                    unit='U-opt', functions=['Opt::collect_pos', 'Opt::collect_neg', 'Opt::map']),
     'list.rs': dict(module='sass::functions::list::kani_verif', src='rsass/src/sass/functions/list.rs',
-                    unit='U-index', functions=['index_of', 'get_list', 'check::unitless_int']),
+                    unit='U-index', functions=['index_of', 'get_list']),
     'comment.rs': dict(module='css::comment::kani_verif', src='rsass/src/css/comment.rs',
                        unit='U-comment', functions=['Comment::write']),
 }
@@ -82,8 +82,17 @@ OVERRIDES = [
     (r'^c01_long_indent_contract_sampled$', dict(bounded='concrete lengths 81, 82, 128, 160')),
     (r'^c01_long_indent_contract_enumerated$', dict(bounded='every concrete length 81..=160', tier='thorough', timeout=1800)),
     (r'^c01_get_indent_contract$', dict(bounded='len <= 160; modular in long_indent, whose contract is checked for sampled/enumerated lengths only')),
-    (r'^c28_get_list_shape$', dict(bounded='lists of at most 2 elements')),
-    (r'^c13_ordermap_(remove|eq_order_insensitive|eq_detects_difference)_n\d', dict(bounded='one harness per concrete map size 0..=3 (and per key permutation for ==); key type u8 with == modulo 4')),
+    (r'^c28_get_list_shape$', dict(bounded='lists of at most 2 elements', functions=['get_list'])),
+    (r'^c28_index_of$', dict(functions=['index_of'])),
+    (r'^c01_number_into_integer$', dict(functions=['Number::into_integer'])),
+    (r'^c01_number_display_fraction_bound$', dict(functions=['Number (fraction digit bound used by Display)'])),
+    (r'^c12_number_', dict(functions=['<Number as PartialEq>::eq', '<Number as PartialOrd>::partial_cmp'])),
+    (r'^c01_cmp_chan|^c12_cmp_chan', dict(functions=['cmp_chan'])),
+    (r'^c31_cap_contract$', dict(functions=['cap'])),
+    (r'^c31_max_min_largest_contract$', dict(functions=['max_min_largest'])),
+    (r'^c01_get_indent_contract$', dict(functions=['Format::get_indent'])),
+    (r'^c01_long_indent_contract', dict(functions=['format::long_indent'])),
+    (r'^c13_ordermap_(insert|remove|eq_order_insensitive|eq_detects_difference)_n\d', dict(bounded='one harness per concrete map size 0..=3 (and per key permutation for ==); key type u8 with == modulo 4')),
     # Operator::eval takes two css::Value by value: the drop glue of every
     # constructor and the format! arms make CBMC exceed 300 s / 10 GB for
     # every one of these (never completed so far).  They are kept as
